@@ -51,6 +51,17 @@ impl Report {
         e.0 += n;
         e.1 += n;
     }
+    /// take over what another property's rules found (and examined) for the named rules: those rules are necessary
+    /// conditions of this property as well
+    pub fn import(&mut self, other: &Report, rules: &[&str]) {
+        for r in rules { if let Some((_, ok)) = other.by_rule.get(*r) { self.pass_n(r, *ok); } }
+        for f in &other.findings {
+            if !rules.contains(&f.rule.as_str()) { continue; }
+            let mut parts = f.key.splitn(3, '|');
+            let (_, role, inst) = (parts.next(), parts.next().unwrap_or("-"), parts.next().unwrap_or("-"));
+            self.fail(&f.rule, role, inst, &f.msg, &f.site, f.detail.clone());
+        }
+    }
     /// one rule instance examined and violated (deduplicated by key)
     pub fn fail(&mut self, rule: &str, role: &str, instance: &str, msg: &str, site: &str, detail: Value) {
         let key = format!("{rule}|{role}|{instance}").replace(' ', "_");
